@@ -594,5 +594,9 @@ def run(chk, prog):
     chk.check(grids == {"grid_t1"}, "R6", site6, "file, fields and wake map all describe grid_t1 (%s)" % sorted(str(g_) for g_ in grids), "main:record-grid:%s" % sorted(str(g_) for g_ in grids))
     for key_ in list(mm.eff.memo):
         chk.functions.add(key_[0])
+    # ---- RD: dimensional consistency of the quantities this property depends on (sa/dims.py) ----------------------------------------
+    from . import dimrules
+    nrd = dimrules.run(chk, prog, "RD")
+    chk.floor("RD-requirements", nrd or 0, 30)
     chk.notes.append("C10: freshness typestate at all append sites x %d invariant cases, block agreement, dataset/accessor/axis tables of HDF5File, cadence. "
                      "NOT decided: numerical equality of stored moments, absolute unit factors." % len(cases))
